@@ -96,7 +96,7 @@ func emptyValidation(in *RunIn) (*EmptyValOut, error) {
 	for _, c := range cs {
 		ev.Current = append(ev.Current, nodeNameOf(c))
 	}
-	budgets, err := disruption.BuildDisruptionBudgetMapping(ctx, w.Cluster, w.Clock, w.Client, w.CP, test.NewEventRecorder(), v1.DisruptionReasonEmpty)
+	budgets, err := disruption.BuildDisruptionBudgetMapping(ctx, w.Cluster, w.Clock, w.Client, cpOf(w), test.NewEventRecorder(), v1.DisruptionReasonEmpty)
 	if err != nil {
 		return nil, err
 	}
